@@ -22,6 +22,8 @@ def sym_int(x=0, *a):
         return sym_int(x.sym_scalar())
     if hasattr(x, 'sym_int'):
         return x.sym_int()
+    if _b.type(x).__name__ == 'SymFloat':
+        return x.trunc_int()
     return _b.int(x, *a)
 
 
